@@ -227,6 +227,33 @@ theorem shapeWithPlan_sf (ud : UData) (body : UBuf → UBuf) (u : UBuf) (sf : Bo
   unfold shapeWithPlan guess enter
   rfl
 
+theorem eq_of_observe_eq {u v : UBuf} (h : observe u = observe v) :
+    u = { v with b := { v.b with flags := u.b.flags }, shapingFailed := u.shapingFailed } := by
+  obtain ⟨⟨i1, o1, x1, l1, ol1, ho1, so1, hp1, su1, le1, f1, sc1, ml1, mo1, se1⟩, d1, s1, la1, p1, q1, sf1, n1⟩ := u
+  obtain ⟨⟨i2, o2, x2, l2, ol2, ho2, so2, hp2, su2, le2, f2, sc2, ml2, mo2, se2⟩, d2, s2, la2, p2, q2, sf2, n2⟩ := v
+  simp only [observe, UBuf.mk.injEq, Buf.mk.injEq] at h
+  simp only [UBuf.mk.injEq, Buf.mk.injEq]
+  simp_all
+
+theorem applyReq_frame (r : Req) (v : UBuf) (f : Nat) (sf : Bool) :
+    applyReq r { v with b := { v.b with flags := f }, shapingFailed := sf } =
+      (applyReq r v).map (fun x => { x with shapingFailed := sf }) := by
+  unfold applyReq
+  simp only [bind, Except.bind]
+  rw [addAll_frame]
+  cases ha : addAll v r.text with
+  | error e => simp [Except.map]
+  | ok u1 =>
+    simp only [Except.map, pure, Except.pure]
+    congr 1
+    cases r.dir <;> cases r.script <;> cases r.lang <;> cases r.nfvs <;>
+      cases r.pre.isEmpty <;> cases r.post.isEmpty <;> rfl
+
+theorem shapeWithPlan_guess (ud : UData) (body : UBuf → UBuf) (u : UBuf) :
+    shapeWithPlan ud body (guess ud u) = shapeWithPlan ud body u := by
+  unfold shapeWithPlan
+  rw [guess_idem]
+
 end Life
 
 /-! ### schedules -/
